@@ -28,12 +28,21 @@ static void c07_run(vf_case *c)
     int tall = !ilu && rng_bool(r, 0.2);      /* ?gstrf called directly accepts m > n: the m-long work arrays then differ from the n-long ones */
     if (tall) g.m = g.n + rng_int(r, 1, 1 + g.n / 2);
     vf_mat A; gen_matrix(r, P, &g, &A);
+    if (ilu && rng_bool(r, 0.4)) {     /* structurally missing diagonal entries (still structurally nonsingular): ?gsitrf's fill-in path for emptied L columns */
+        gen_spec g2 = g; g2.drop_diag = rng_int(r, 1, 3); if (g2.pattern == PAT_DENSE) g2.pattern = PAT_BAND;
+        vf_mat A2; gen_matrix(r, P, &g2, &A2);
+        if (sprank(&A2) == A2.n) { mat_free(&A); A = A2; g = g2; vf_tag(c, "ilu-missing-diagonal"); } else mat_free(&A2);
+    }
+    int gadget = ilu && rng_bool(r, 0.25);
+    if (gadget) { vf_mat A2; gen_ilu_emptycol(r, P, rng_int(r, 8, 40), &A2); if (sprank(&A2) == A2.n) { mat_free(&A); A = A2; vf_tag(c, "ilu-emptied-column-gadget"); } else { mat_free(&A2); gadget = 0; } }
     gen_run_opts(r, &o, 0);
     if (tall && o.opt.ColPerm == MMD_AT_PLUS_A) o.opt.ColPerm = MMD_ATA;   /* A'+A needs a square matrix (documented) */
     gen_tuning(r, 1);
     int n = A.n;
     superlu_options_t opt;
-    if (ilu) { gen_ilu_options(r, &opt); opt.RowPerm = NOROWPERM; ilu_options_str(&opt, buf, sizeof buf); }
+    if (ilu) { gen_ilu_options(r, &opt); opt.RowPerm = NOROWPERM;
+        if (gadget) { opt.ColPerm = NATURAL; opt.ILU_DropRule |= DROP_BASIC; if (opt.ILU_DropTol < 1e-4) opt.ILU_DropTol = 1e-2; }
+        ilu_options_str(&opt, buf, sizeof buf); }
     else { set_default_options(&opt); opt.ColPerm = o.opt.ColPerm; opt.DiagPivotThresh = o.opt.DiagPivotThresh; opt.SymmetricMode = o.opt.SymmetricMode; opt.PrintStat = NO; run_opts_str(&o, buf, sizeof buf); }
     int *mypc = malloc(sizeof(int) * (size_t)(n + 1)); rng_perm(r, mypc, n);
     char gs[200]; gen_spec_str(&g, gs, sizeof gs); vf_desc(c, "%s %s; %s; ", ilu ? "gsitrf" : "gstrf", gs, buf); tuning_str(buf, sizeof buf); vf_desc(c, "%s", buf);
@@ -46,6 +55,7 @@ static void c07_run(vf_case *c)
     fact_run R0; fact_do(P, &A, &opt, mypc, NULL, 0, ilu, &R0);
     int ok0 = ilu ? (R0.info >= 0 && R0.info <= n) : R0.info == 0;
     if (!ok0) { vf_tag(c, "reference-not-successful"); fact_free(&R0); free(mypc); mat_free(&A); vf_check_ledger(c, "after reference"); return; }
+    if (ilu && sprank(&A) < n) { vf_tag(c, "ilu-structsing-not-judged"); vf_skip(c, "incomplete factorization of a structurally singular matrix (outside C15's domain; listed finding F14)"); fact_free(&R0); free(mypc); mat_free(&A); vf_check_ledger(c, "after reference"); return; }
     if (structure_ok(P, &R0.L, &R0.U, A.m, n, ilu, why, sizeof why)) { vf_viol(c, "reference-malformed", "%s", why); fact_free(&R0); free(mypc); mat_free(&A); return; }
     uint64_t h0 = run_hash(P, &R0); int_t info0 = R0.info; int exp0 = R0.stat.expansions;
     check_query(c, P, &R0, ilu, "reference");
@@ -110,6 +120,37 @@ static void c07_run(vf_case *c)
             }
         }
         free(buf0); c->counters[1] += nws; c->counters[2] += nshort; if (nws) vf_tag(c, "mem=workspace");
+    }
+    /* (3) every growth site at the exactly-full state: the initial capacity of lusup, of ucol/usub and of lsub (guarded hook in
+       ?LUMemInit) is set to the fill level the reference run had at a column boundary (or to any value up to the final size), under
+       library allocation and inside a generous caller workspace (where a growth shifts the arrays behind it) */
+    if (c->nmore < 3) {
+        const SCformat *Ls = R0.L.Store; const NCformat *Us = R0.U.Store;
+        long fin[3] = { (long)Ls->nzval_colptr[n], (long)Us->colptr[n], (long)Ls->rowind_colptr[n] };
+        size_t G = generous_lwork(P, A.m, A.nnz); unsigned char *wb = vf_ws_alloc(c, G + 64);
+        vf_ienv_set(6, 30);
+        int nv = c->tier ? 36 : 12, ncap = 0;
+        for (int which = 0; which < 3 && c->nmore < 3; which++) for (int t = 0; t < nv && c->nmore < 3; t++) {
+            long F = fin[which] < 1 ? 1 : fin[which], c0; int j = rng_int(r, 0, n);
+            if (t == 0) c0 = F; else if (t == 1) c0 = F > 1 ? F - 1 : 1; else if (t == 2) c0 = 1;
+            else if (rng_bool(r, 0.55)) c0 = which == 0 ? (long)Ls->nzval_colptr[j] : which == 1 ? (long)Us->colptr[j] : (long)Ls->rowind_colptr[j];
+            else c0 = rng_int(r, 1, (int)(F + F / 4 + 2));
+            if (c0 < 1) c0 = 1;
+            long cap[3] = { 0, 0, 0 }; cap[which] = c0; if (rng_bool(r, 0.25)) cap[(which + 1 + rng_int(r, 0, 1)) % 3] = rng_int(r, 1, 8);
+            int ws = rng_bool(r, 0.5); void *work = wb + (rng_bool(r, 0.5) ? 4 : 8) + (16 - ((uintptr_t)wb & 15)) % 16;
+            if (ws && t % 4 == 0) vf_ws_fill(c, wb, G + 64);
+            uint64_t mark = vf_ledger_mark();
+            vf_cap_set(cap[0], cap[1], cap[2]);
+            fact_run R; fact_do(P, &A, &opt, mypc, ws ? work : NULL, ws ? (int_t)G : 0, ilu, &R);
+            vf_cap_set(0, 0, 0);
+            if (vf_events_count(VF_EV_STACK_OVERLAP) > 0) { vf_viol(c, "workspace-stack-overlap", "initial capacities lusup=%ld ucol=%ld lsub=%ld in a generous workspace: stack head passed its tail after a growth", cap[0], cap[1], cap[2]); vf_events_reset(); }
+            if (R.info > n) { vf_viol(c, "capacity-start-misreported", "initial capacities lusup=%ld ucol=%ld lsub=%ld (%s): info=%lld although memory is plentiful", cap[0], cap[1], cap[2], ws ? "generous workspace" : "library allocation", (long long)R.info); fact_free(&R); vf_check_ledger_since(c, "after capacity run", "nomem", mark); continue; }
+            if (R.info != info0) vf_viol(c, "info-depends-on-capacity", "initial capacities lusup=%ld ucol=%ld lsub=%ld (%s): info=%lld, reference info=%lld", cap[0], cap[1], cap[2], ws ? "workspace" : "library allocation", (long long)R.info, (long long)info0);
+            else if (run_hash(P, &R) != h0) vf_viol(c, "factors-depend-on-capacity", "initial capacities lusup=%ld ucol=%ld lsub=%ld (%s, %d expansions): perms/L/U bytes differ from the reference run", cap[0], cap[1], cap[2], ws ? "workspace" : "library allocation", R.stat.expansions);
+            else { compared++; ncap++; if (R.stat.expansions > maxexp) maxexp = R.stat.expansions; }
+            fact_free(&R);
+        }
+        free(wb); c->counters[5] += ncap; if (ncap) vf_tag(c, "capacity-walk");
     }
     c->counters[0] += compared; if (maxexp > c->counters[3]) c->counters[3] = maxexp;
     vf_tag(c, "maxexpansions=%d", maxexp > 3 ? 3 : maxexp); if (minexp == 0) vf_tag(c, "minexpansions=0");
